@@ -334,6 +334,7 @@ theorem fsClause_final (s : Spec Ver) (c : Clause Ver) (hn : C06.Nice s) (hc : f
     `PyMergeOk` is no separate assumption -/
 theorem pyMergeOk_of_fromSpec (env : Env) (he : EnvTotal env) (hF : FromSpecOk env) : PyMergeOk env := by
   have core : ∀ (vm fm : Atom) (isAnd : Bool) (m : M), GoodAtom env vm → GoodAtom env fm →
+      vm.exactView = true → fm.exactView = true →
       vm.name = "python_version" → fm.name = "python_full_version" →
       (match normalizePythonVersion vm with
        | none => none
@@ -342,7 +343,7 @@ theorem pyMergeOk_of_fromSpec (env : Env) (he : EnvTotal env) (hF : FromSpecOk e
          | none => none
          | some merged => if merged.beq ns then some (.expr vm) else fromSpecifier "python_full_version" merged) = some m →
       GAll (Good env) m ∧ sem env m = bop isAnd (sem env (.expr vm)) (sem env (.expr fm)) := by
-    intro vm fm isAnd m hvm hfm hnv hnf h
+    intro vm fm isAnd m hvm hfm hxv hxf hnv hnf h
     have hvlv : versionLikeNames.contains vm.name = true := by rw [hnv]; decide
     have hvlf : versionLikeNames.contains fm.name = true := by rw [hnf]; decide
     have hvl : versionLikeNames.contains "python_full_version" = true := by decide
@@ -353,8 +354,8 @@ theorem pyMergeOk_of_fromSpec (env : Env) (he : EnvTotal env) (hF : FromSpecOk e
     -- the normalised view of the python_version atom
     have hgv := hvm.2
     simp only [h1v, if_false, h2v, Bool.false_eq_true, hvlv, if_true] at hgv
-    obtain ⟨_, _, hnorm, _⟩ := hgv
-    obtain ⟨cf, nf, kf⟩ := good_ordinary env fm hfm h1f h2f
+    obtain ⟨_, _, hnorm, _⟩ := hgv.resolve_left (by simp [hxv])
+    obtain ⟨cf, nf, kf⟩ := good_ordinary env fm hfm h1f h2f hxf
     rw [hnf] at kf
     unfold Atom.Coherent at cf
     rw [hnf] at cf
@@ -393,15 +394,15 @@ theorem pyMergeOk_of_fromSpec (env : Env) (he : EnvTotal env) (hF : FromSpecOk e
             rw [hsf] at hmg
             cases ns <;> cases isAnd <;> simp [aspecAnd, aspecOr] at hmg
             all_goals (try (obtain ⟨_, _, hx⟩ := hmg; cases hx))
-  intro a b isAnd m ha hb hpair h
+  intro a b isAnd m ha hb hxa hxb hpair h
   simp only [Bool.or_eq_true, Bool.and_eq_true, beq_iff_eq] at hpair
   unfold mergePythonVersion at h
   rcases hpair with ⟨hna, hnb⟩ | ⟨hna, hnb⟩
   · simp only [hna, beq_self_eq_true, if_true] at h
-    exact core a b isAnd m ha hb hna hnb h
+    exact core a b isAnd m ha hb hxa hxb hna hnb h
   · have : (a.name == "python_version") = false := by rw [hna]; decide
     simp only [this, Bool.false_eq_true, if_false] at h
-    have r := core b a isAnd m hb ha hnb hna h
+    have r := core b a isAnd m hb ha hxb hxa hnb hna h
     refine ⟨r.1, ?_⟩
     rw [r.2]; cases isAnd <;> simp [bop, Bool.and_comm, Bool.or_comm]
 
@@ -1044,7 +1045,7 @@ theorem fromSpecOk_of_lex (env : Env) (he : EnvTotal env) (hN : LexNormOk) : Fro
                   have hpb : BoundsIn Pv2 ((Spec.range {}).and s1) := by
                     rw [any_and_fromClause c s1 hfc1]
                     exact fromClause_pv2 c s1 s hfc1 (fsClause_final s c hn hc) (hpvs hnm) hbeq'
-                  refine ⟨hcoh, hnice', ?_, fun _ => hpb⟩
+                  refine Or.inr ⟨hcoh, hnice', ?_, fun _ => hpb⟩
                   refine normGood_of_lex env he a' (fsC name c) ?_ hwf hnm hopn ⟨halts, hone⟩ hcoh hnice' ?_
                   · intro ns hns
                     rw [hfsC]
@@ -1069,7 +1070,7 @@ theorem fromSpecOk_of_lex (env : Env) (he : EnvTotal env) (hN : LexNormOk) : Fro
                     intro pv f hpv hf
                     rw [hmemAll, hmemAll]
                     exact hsat pv f hpv hf
-                · refine ⟨hcoh, hnice', fun h => absurd h hnm, fun h => absurd h hnm⟩
+                · refine Or.inr ⟨hcoh, hnice', fun h => absurd h hnm, fun h => absurd h hnm⟩
               refine ⟨hgood, ?_⟩
               have := hcoh
               unfold Atom.Coherent at this
